@@ -256,25 +256,116 @@ def run(facts, rep, tier):
                 rep.add(Finding("R14.4", "blank arm prints %r" % lits, "the blank form of a column prints %r" % lits, "%s:%d" % (file_, cs["line"])))
     rep.instances("R14.4", n4, floor=60 if e3_ok else 0, what="placeholders")
     # ---- R14.5
-    dp = [b for b in facts.bodies.values() if b.name.endswith("display_planes")]
-    if len(dp) != 1:
-        raise Broken("C14 anchor: display_planes")
-    dcfg = CFG(dp[0])
-    seq = []
-    for bi in sorted(dcfg.reach):
-        t = dp[0].blocks[bi]["term"]
-        if t["k"] == "call":
-            nm = (callee_name(t) or "").split("::")[-1]
-            if nm in ("print_header", "print_separator", "print"):
-                seq.append((bi, nm))
-    order = [nm for _, nm in seq]
-    ok = order == ["print_header", "print_separator", "print", "print_separator"] and all(dcfg.dominates(seq[i][0], seq[i + 1][0]) for i in range(len(seq) - 1))
+    order, nprint, where = _refresh_order(facts)
+    ok = order == ["header", "separator", "rows", "separator"]
     rep.oblige(ok, ("layout",))
-    rep.instances("R14.5", len(seq), floor=3)
+    rep.sample({"rule": "R14.5", "refresh_function": where.name, "printed_in_order": order})
+    rep.instances("R14.5", nprint, floor=1, what="output operations of one refresh, followed into helpers")
     if not ok:
-        rep.add(Finding("R14.5", "refresh layout %s" % order, "a refresh prints %s; expected header, separator, rows, separator" % order, dp[0].loc()))
+        rep.add(Finding("R14.5", "refresh layout %s" % order, "a refresh prints %s; expected header, separator, rows, separator" % order, where.loc()))
     rep.assumptions += ["an unpadded char or single digit counts as 1 column ('whenever every value fits its column')",
                         "each aircraft once / ordering is C15's"]
+
+
+def _refresh_order(facts):
+    """What one refresh writes, in order, as a list over {header, separator, rows}: the refresh function (the crate function
+    that is handed both the table and the prepared header lines) is walked in dominance order; every output operation -
+    a `print!` or a crate callee that prints - contributes the pieces its printed value is made of:
+      header / separator   a read of the corresponding field of the header struct,
+      rows                 the result (or the output) of a crate function that is handed the table.
+    Helpers that return the text (`screen(..)`, `[a, b, c].concat()`, `format!`) are followed through their return expression;
+    helpers that print are followed into their bodies."""
+    from ..effects import Effects
+    from ..mirq import expr_place
+    eff = Effects(facts)
+    hdr_adt = [n for n in facts.adts if n.endswith("::LegendHeaders")]
+    if len(hdr_adt) != 1:
+        raise Broken("C14 anchor: header struct")
+    fields = [fl["name"] for v in facts.adts[hdr_adt[0]]["variants"] for fl in v["fields"]]
+    roles = {}
+    for fl in fields:
+        if "sep" in fl.lower() or "rule" in fl.lower() or "line" in fl.lower():
+            roles[fl] = "separator"
+        elif "head" in fl.lower() or "title" in fl.lower():
+            roles[fl] = "header"
+    if sorted(roles.values()) != ["header", "separator"]:
+        raise Broken("C14 anchor: fields of the header struct %s" % fields)
+
+    def has_param(b, suffix):
+        return any(b.locals[i]["ty"]["s"].replace("&mut ", "").lstrip("&").endswith(suffix) for i in range(1, b.arg_count + 1))
+    cands = [b for b in facts.bodies.values() if b.kind == "fn" and "::tests::" not in b.name and has_param(b, "::Planes")
+             and has_param(b, "::LegendHeaders") and ("stdout",) in eff.of(b.name)]
+    names = {b.name for b in cands}
+    top = [b for b in cands if not any(callee_name(t) == b.name for c in cands if c is not b for _, t in c.calls())]
+    if len(top) != 1:
+        raise Broken("C14 anchor: %d refresh functions (handed the table and the header lines, printing)" % len(top))
+    count = [0]
+
+    def toks_expr(e, depth):
+        out = []
+        if not isinstance(e, tuple) or depth > 6:
+            return out
+        if e and e[0] in ("arg", "path", "capture"):
+            for x in e:
+                if isinstance(x, tuple):
+                    for y in x:
+                        if isinstance(y, str) and y in roles:
+                            out.append(roles[y])
+                        elif isinstance(y, tuple):
+                            out += toks_expr(y, depth + 1)
+            if e[0] == "path" and isinstance(e[1], tuple):
+                pass
+            return out
+        if e and e[0] == "call" and isinstance(e[1], str) and e[1] in facts.bodies:
+            cb = facts.bodies[e[1]]
+            if has_param(cb, "::Planes"):
+                if has_param(cb, "::LegendHeaders"):
+                    # a helper that composes the whole screen: its return expression with our arguments
+                    from ..mirq import _subst_args
+                    return toks_expr(_subst_args(expr_place(DefUse(cb), {"local": 0, "proj": []}), e[2]), depth + 1)
+                return ["rows"]
+            from ..mirq import _subst_args
+            return toks_expr(_subst_args(expr_place(DefUse(cb), {"local": 0, "proj": []}), e[2]), depth + 1)
+        for x in e:
+            if isinstance(x, tuple):
+                out += toks_expr(x, depth)
+        return out
+
+    def toks_body(b, depth):
+        out = []
+        if depth > 4:
+            return out
+        cfg = CFG(b)
+        du = DefUse(b)
+        sites = []
+        for bi in sorted(cfg.reach):
+            if b.blocks[bi]["cleanup"]:
+                continue
+            t = b.blocks[bi]["term"]
+            if t["k"] != "call":
+                continue
+            p = t["callee"].get("path") or ""
+            tgt = callee_name(t)
+            if p in ("std::io::_print", "std::io::_eprint"):
+                sites.append((bi, toks_expr(expr(du, t["args"][0]), 0)))
+            elif tgt in facts.bodies and ("stdout",) in eff.of(tgt):
+                cb = facts.bodies[tgt]
+                if has_param(cb, "::Planes") and not has_param(cb, "::LegendHeaders"):
+                    sites.append((bi, ["rows"]))
+                else:
+                    sites.append((bi, toks_body(cb, depth + 1)))
+        sites.sort(key=lambda x: sum(1 for bj, _ in sites if cfg.dominates(bj, x[0])))
+        for i, (bi, tk) in enumerate(sites):
+            count[0] += 1
+            out += tk
+        # the pieces must be totally ordered by dominance (a piece printed on one branch only is not part of every refresh)
+        tok_sites = [bi for bi, tk in sites if tk]
+        for i in range(len(tok_sites) - 1):
+            if not cfg.dominates(tok_sites[i], tok_sites[i + 1]):
+                out.append("unordered")
+        return out
+    order = toks_body(top[0], 0)
+    return order, count[0], top[0]
 
 
 def _dedupe(xs):
